@@ -216,6 +216,52 @@ def from_json(v):
     return v
 
 
+def bytes_slots(ref, c, v, path=(), owner_boxed=True, out=None):
+    """All bytes-typed positions of a value, schema-directed: (path, owner kind, owner constructor, field)."""
+    if out is None:
+        out = []
+    for f in c.fields:
+        if f.name not in v or v[f.name] is None:
+            continue
+        _slots_type(ref, f.type, v[f.name], path + (f.name,), c, f.name, 'boxed-owner' if owner_boxed else 'bare-owner', out)
+    return out
+
+
+def _slots_type(ref, t, x, path, c, fname, kind, out):
+    if t == 'bytes':
+        if isinstance(x, (bytes, bytearray)):
+            out.append((path, kind, c.name, fname))
+        return
+    e = reftl.vector_elem(t)
+    if e is not None:
+        if isinstance(x, list):
+            for i, y in enumerate(x):
+                _slots_type(ref, e, y, path + (i,), c, fname, 'vector-of-bytes' if e == 'bytes' else kind, out)
+        return
+    if not isinstance(x, dict):
+        return
+    if reftl.is_bare_name(t):
+        cc = ref.by_name.get(t)
+        if cc is not None:
+            bytes_slots(ref, cc, x, path, False, out)
+    else:
+        cc = ref.by_name.get(x.get('@type'))
+        if cc is not None:
+            bytes_slots(ref, cc, x, path, True, out)
+
+
+def get_path(v, path):
+    for k in path:
+        v = v[k]
+    return v
+
+
+def set_path(v, path, x):
+    for k in path[:-1]:
+        v = v[k]
+    v[path[-1]] = x
+
+
 def norm(ref, t, v):
     """Schema-directed comparable form; '@type' is kept only where the schema does not imply it (boxed positions)."""
     if t in ('int', 'long', '#'):
@@ -373,8 +419,13 @@ class TlWorld(HistoryWorld):
                     'hash_as': rng.choice(['bytes', 'hex']), 'diff': rng.choice(['wc', 'shard', 'seqno', 'rh', 'fh'])}
         ref = st.ref
         dom = ref.domain
-        if rng.random() < 0.15:
+        r = rng.random()
+        if r < 0.15:
             op = self._gen_embedded(st, ctx)
+            if op is not None:
+                return op
+        elif r < 0.3:
+            op = self._gen_deep_embedded(st, ctx)
             if op is not None:
                 return op
         name = dom[(ctx.cfg['start'] + st.k) % len(dom)] if rng.random() < 0.85 else rng.choice(dom)
@@ -412,6 +463,115 @@ class TlWorld(HistoryWorld):
         if not inner:
             return None
         return {'op': 'send_embedded', 'ctor': outer, 'value': to_json(val), 'inner': inner}
+
+    def _gen_deep_embedded(self, st, ctx):
+        """An object travels inside a bytes field that is NOT a direct field of the frame's own constructor: the field of a bare
+        nested object, of a vector element, or an element of (vector bytes).  The library's API takes and returns such an object as a dict."""
+        rng, ref = ctx.rng, st.ref
+        if not hasattr(st, 'deep_carriers'):
+            # constructors that can reach a bytes position below their own fields
+            st.deep_carriers = []
+            for n in ref.domain:
+                c = ref.by_name[n]
+                if any(f.type != 'bytes' and ('bytes' in f.type or not (f.type in reftl.BASE or f.type in ('Bool', 'string', 'true'))) for f in c.fields):
+                    st.deep_carriers.append(n)
+        for _ in range(6):
+            outer = rng.choice(st.deep_carriers)
+            oc = ref.by_name[outer]
+            val = Gen(rng, ref, st.extra_ids).obj(oc, 3, typed=True)
+            slots = [sl for sl in bytes_slots(ref, oc, val) if len(sl[0]) > 1]
+            if not slots:
+                continue
+            chosen = rng.sample(slots, min(len(slots), rng.choice([1, 1, 2])))
+            out = []
+            for path, kind, owner, fname in chosen:
+                iname = rng.choice(ref.domain)
+                ival = Gen(rng, ref, st.extra_ids).obj(ref.by_name[iname], 1, typed=True)
+                out.append({'path': list(path), 'ctor': iname, 'value': to_json(ival)})
+            return {'op': 'send_deep_embedded', 'ctor': outer, 'value': to_json(val), 'slots': out}
+        return None
+
+    def op_send_deep_embedded(self, st, op, ctx):
+        ref, sch = st.ref, st.schemas
+        c = ref.by_name.get(op['ctor'])
+        if c is None:
+            return
+        v_ref = from_json(op['value'])
+        v_lib = from_json(op['value'])
+        valid = {sl[0]: sl for sl in bytes_slots(ref, c, v_ref)}
+        done = []
+        try:
+            for d in op['slots']:
+                path = tuple(d['path'])
+                if path not in valid or any(path == q for q, _, _, _ in done):
+                    continue
+                ic = ref.by_name[d['ctor']]
+                iv = from_json(d['value'])
+                iw = ref.encode(ic.name, iv)
+                if len(iw) > 60000:
+                    continue
+                set_path(v_ref, path, iw)
+                set_path(v_lib, path, dict(iv, **{'@type': ic.name}))
+                done.append((path, ic, iv, iw))
+            wire = ref.encode(c.name, v_ref)
+        except (reftl.TlModelError, KeyError, TypeError, AttributeError, ValueError, OverflowError, IndexError):
+            return
+        if not done:
+            return
+        kinds = sorted(set(valid[p][1] for p, _, _, _ in done))
+        for k in kinds:
+            ctx.probe('object-embedded-below-the-frame/' + k)
+        klass = 'embedded-object/' + kinds[0]
+        # 1. the library serialises the dict form to the TL encoding
+        ok, lib_wire = call(lambda: sch.serialize(sch.get_by_name(c.name), v_lib))
+        ctx.evaluated(1)
+        if not ok:
+            self.V(ctx, 'serialize-raises', 'serialize', klass, 'serialising %s with an object in a bytes position raised %r' % (c.name, lib_wire))
+            return
+        if lib_wire != wire:
+            self.V(ctx, 'bytes-differ', 'serialize', klass, '%s with an embedded object: library bytes differ from the TL encoding' % (c.name,))
+            return
+        # 2. parsing returns the same value: the object again (raw bytes only where the library declares the field untouchable)
+        status, res, steps = metered(PARSE_BUDGET + 40 * len(wire), sch.deserialize, wire)
+        ctx.evaluated(1)
+        ctx.tick(steps)
+        if status != 'ok':
+            self.V(ctx, 'parse-raises' if status == 'raised' else 'parse-no-result', 'deserialize', klass, 'parsing a valid %s frame raised / did not finish: %r' % (c.name, res))
+            return
+        try:
+            val, used = res
+        except (TypeError, ValueError):
+            self.V(ctx, 'parse-raises', 'deserialize', 'shape', 'deserialize returned %r' % (res,))
+            return
+        if not isinstance(val, dict) or val.get('@type') != c.name:
+            self.V(ctx, 'parse-value-differs', 'deserialize', 'constructor-id', 'a %s frame parsed as %r' % (c.name, type(val)))
+            return
+        unt = getattr(sch, 'untouchables', {})
+        for path, ic, iv, iw in done:
+            _, kind, owner, fname = valid[path]
+            try:
+                got = get_path(val, path)
+            except (KeyError, IndexError, TypeError):
+                self.V(ctx, 'parse-value-differs', 'deserialize', klass, '%s: position %r is missing from the parsed value' % (c.name, path))
+                return
+            raw_expected = kind == 'boxed-owner' and fname in unt.get(owner, ())
+            if raw_expected:
+                okf = isinstance(got, (bytes, bytearray)) and bytes(got) == iw
+            else:
+                okf = isinstance(got, dict) and got.get('@type') == ic.name and norm(ref, ic.result, got) == norm(ref, ic.result, dict(iv, **{'@type': ic.name}))
+            if not okf:
+                self.V(ctx, 'parse-value-differs', 'deserialize', 'embedded-object/' + kind, '%s: the %s object sent at %r (%s) came back as %s' % (c.name, ic.name, path, kind, repr(got)[:100]))
+                return
+            try:
+                set_path(val, path, iw)
+            except (KeyError, IndexError, TypeError):
+                return
+        if norm_fields(ref, c, val) != norm_fields(ref, c, v_ref):
+            k = first_diff(ref, c, norm_fields(ref, c, v_ref), norm_fields(ref, c, val))
+            self.V(ctx, 'parse-value-differs', 'deserialize', 'next-to-embedded-object/' + k, '%s: a field of class %s next to an embedded object differs from the sent value' % (c.name, k))
+            return
+        if used != len(wire):
+            self.V(ctx, 'parse-consumed', 'deserialize', klass, '%s: parser consumed %r of %d bytes' % (c.name, used, len(wire)))
 
     def op_send_embedded(self, st, op, ctx):
         ref, sch = st.ref, st.schemas
